@@ -848,6 +848,122 @@ func postByName(name string) post {
 	panic("no post " + name)
 }
 
+// ---- the same variable decoded into again: what an earlier decode handed out stays as it was
+
+type sameVarT struct {
+	R json.RawMessage
+	B []byte
+	S string
+	L []json.RawMessage
+	M map[string]json.RawMessage
+}
+
+func collectBytes(v reflect.Value, out *[][]byte) {
+	switch v.Kind() {
+	case reflect.Ptr, reflect.Interface:
+		if !v.IsNil() {
+			collectBytes(v.Elem(), out)
+		}
+	case reflect.Slice:
+		if v.Type().Elem().Kind() == reflect.Uint8 {
+			if v.Len() > 0 {
+				*out = append(*out, v.Bytes())
+			}
+			return
+		}
+		for i := 0; i < v.Len(); i++ {
+			collectBytes(v.Index(i), out)
+		}
+	case reflect.Struct:
+		for i := 0; i < v.NumField(); i++ {
+			collectBytes(v.Field(i), out)
+		}
+	case reflect.Map:
+		it := v.MapRange()
+		for it.Next() {
+			collectBytes(it.Value(), out)
+		}
+	}
+}
+
+func sameVariable(c *explore.Ctx) {
+	kind := c.Choose(5)
+	entry := c.Choose(3) // Decoder.Decode on one stream, Unmarshal, Parse
+	order := c.Choose(3)
+	hook.ResetAll()
+	mk := func(long bool) string {
+		raw, b64, str := `{"k":[1,2,3,"four"]}`, `"aGVsbG8gd29ybGQhIQ=="`, `"a string value"`
+		if !long {
+			raw, b64, str = `[7]`, `"aGk="`, `"s"`
+		}
+		switch kind {
+		case 0:
+			return raw
+		case 1:
+			return b64
+		case 2:
+			return `{"R":` + raw + `,"B":` + b64 + `,"S":` + str + `,"L":[` + raw + `,` + raw + `],"M":{"k":` + raw + `}}`
+		case 3:
+			return `{"a":` + raw + `,"b":` + raw + `}`
+		default:
+			return `[` + raw + `,` + raw + `]`
+		}
+	}
+	var x any
+	switch kind {
+	case 0:
+		x = new(json.RawMessage)
+	case 1:
+		x = new([]byte)
+	case 2:
+		x = new(sameVarT)
+	case 3:
+		x = new(map[string]json.RawMessage)
+	default:
+		x = new([]json.RawMessage)
+	}
+	seqs := [][]bool{{true, false, true}, {true, true, false}, {false, true, false}}
+	docs := []string{}
+	for _, l := range seqs[order] {
+		docs = append(docs, mk(l))
+	}
+	dec := json.NewDecoder(strings.NewReader(strings.Join(docs, "\n")))
+	var handed [][]byte // what earlier decodes handed out (the slices themselves)
+	var saved [][]byte  // and what they held then
+	for i, d := range docs {
+		var err error
+		switch entry {
+		case 0:
+			err = dec.Decode(x)
+		case 1:
+			err = json.Unmarshal([]byte(d), x)
+		case 2:
+			_, err = json.Parse([]byte(d), x, 0)
+		}
+		if err != nil {
+			c.Fail("same-variable:decode-error", "decode %d of %s into the same variable fails: %v", i+1, d, err)
+			return
+		}
+		for k := range handed {
+			if !bytes.Equal(handed[k], saved[k]) {
+				c.Fail("same-variable:earlier-result-overwritten", "after decoding %s into the same variable (%s %d), bytes handed out by an earlier decode changed from %.40q to %.40q", d, []string{"Decoder.Decode", "Unmarshal", "Parse"}[entry], i+1, saved[k], handed[k])
+				return
+			}
+		}
+		var now [][]byte
+		collectBytes(reflect.ValueOf(x), &now)
+		for _, b := range now {
+			handed = append(handed, b)
+			saved = append(saved, append([]byte{}, b...))
+		}
+	}
+	c.NontrivialStr("samevar", fmt.Sprint(kind, entry, order))
+	c.Outcome(fmt.Sprintf("kind=%d", kind))
+	if c.WantSample() || c.Failed() {
+		c.Case(map[string]any{"target_kind": kind, "entry": entry, "documents": docs})
+	}
+}
+
 func lentFamily(c *explore.Ctx) {
 	lv := lentValues[c.Choose(len(lentValues))]
 	op := c.Choose(4) // Marshal, Append, Encoder, Encoder with a re-entrant writer
@@ -1004,6 +1120,7 @@ func Spec() *explore.Spec {
 			{Name: "decoder", ShardDepth: 3, Body: decoderFamily, Doc: "Decoder.Decode of the first value of a stream delivered so that the tail is compacted over it / the buffer is reallocated / bytes arrive one at a time / all at once / from a *bytes.Buffer or *bytes.Reader over the caller's own bytes (which must stay as they are, also when the stream ends inside a value), followed by the next two Decode calls and every sequence of later calls"},
 			{Name: "tokenizer", ShardDepth: 2, Body: tokenizerFamily, Doc: "Tokenizer.String results (slices of the input, or fresh slices for escaped strings) x every sequence of later calls"},
 			{Name: "encode", ShardDepth: 2, Body: encodeFamily, Doc: "Marshal / Encoder.Encode (plain writer; writer that calls the library before consuming its argument, with and without SetIndent) / Append / MarshalIndent of 12 value kinds (incl. outputs larger than a fresh pooled buffer and sorted map[string]RawMessage), with and without a used buffer in the pool, x every sequence of <= 2 (3) later calls incl. GC; Marshal repeated at the end gives the same bytes"},
+			{Name: "same-variable", ShardDepth: 2, Body: sameVariable, Doc: "three documents (long / short values in 3 orders) decoded one after the other into the same variable of 5 kinds (RawMessage, []byte, a struct with RawMessage / []byte / string / list / map members, map[string]RawMessage, []RawMessage) through Decoder.Decode, Unmarshal and Parse: the byte slices an earlier decode handed out keep their contents"},
 			{Name: "lent-values", ShardDepth: 3, Body: lentFamily, Doc: "memory lent to the encoder: 13 values holding RawMessages / byte slices / Marshalers and TextMarshalers that return memory they keep (small, larger than a fresh pooled buffer, larger than a grown one; top-level, behind a pointer, in structs, maps and []any), each with spare capacity behind it x {Marshal, Append x 8 flag subsets x 3 destinations, Encoder x 8 setter combinations x {plain, re-entrant writer}} x every sequence of <= 2 later calls x the moment at which the caller overwrites what it lent (quick: at once or never; thorough: before any of the later calls, or never): neither the contents nor the spare capacity of a lent value is ever written, and the result does not change when the caller overwrites it"},
 		},
 		Rule: "every history op;post* within the bounds; distinct non-trivial = distinct (operation, document/value, flags)",
